@@ -19,8 +19,8 @@ build() {
 }
 build
 if [ "${1:-}" = "--replay" ]; then
-  exec "$BIN" -repo "$REPO" -verif "$VERIF" -replay "$2"
+  exec "$BIN" -repo "$REPO" -verif "$VERIF" -out "${VERIF_OUT:-$VERIF}" -replay "$2"
 fi
 ID="${1:?usage: check.sh <Cnn> quick|thorough}"
 TIER="${2:-${VERIF_TIER:-quick}}"
-exec "$BIN" -repo "$REPO" -verif "$VERIF" -tier "$TIER" "$ID"
+exec "$BIN" -repo "$REPO" -verif "$VERIF" -out "${VERIF_OUT:-$VERIF}" -tier "$TIER" "$ID"
